@@ -62,6 +62,8 @@ pub struct Failure {
     /// Root-cause signature (matched against known_findings.txt).
     pub signature: String,
     pub detail: String,
+    /// For campaign-style cases: the concrete failing input as (part, case).
+    pub replay: Option<(String, Value)>,
 }
 
 impl Outcome {
@@ -72,6 +74,16 @@ impl Outcome {
             failure: None,
             counts: Vec::new(),
         }
+    }
+    pub fn fail_with_replay(mut self, signature: impl Into<String>, detail: impl Into<String>, part: &str, case: Value) -> Self {
+        if self.failure.is_none() {
+            self.failure = Some(Failure {
+                signature: signature.into(),
+                detail: detail.into(),
+                replay: Some((part.to_string(), case)),
+            });
+        }
+        self
     }
     pub fn count(mut self, k: &'static str, n: u64) -> Self {
         self.counts.push((k, n));
@@ -86,6 +98,7 @@ impl Outcome {
             self.failure = Some(Failure {
                 signature: signature.into(),
                 detail: detail.into(),
+                replay: None,
             });
         }
         self
@@ -334,7 +347,16 @@ impl ShardState {
         if o.nontrivial {
             let fresh = self.nontrivial.insert(h);
             if fresh && self.report.samples.len() < 3 {
-                self.report.samples.push(json!({"part": part, "case": sample()}));
+                let mut v = sample();
+                let text = v.to_string();
+                if text.len() > 6000 {
+                    let mut end = 2000;
+                    while !text.is_char_boundary(end) {
+                        end -= 1;
+                    }
+                    v = json!({"truncated_case_json": &text[..end], "full_length": text.len()});
+                }
+                self.report.samples.push(json!({"part": part, "case": v}));
             }
         }
     }
@@ -386,9 +408,15 @@ pub fn run_shard(ctx: &ShardCtx) -> ShardReport {
                     if ctx.known.contains(&f.signature) {
                         *st.report.known_hits.entry(f.signature.clone()).or_default() += 1;
                     } else if st.seen_violation_sigs.insert(f.signature.clone()) {
+                        // a campaign-style case (fuzzing run) names the concrete
+                        // failing input itself: that becomes the replay file
+                        let (rp, rc) = match &f.replay {
+                            Some((p, c)) => (p.as_str(), c.clone()),
+                            None => (pname, to_json()),
+                        };
                         st.report.violations.push(json!({
-                            "property": ctx.def.id, "part": pname, "signature": f.signature,
-                            "detail": f.detail, "case": to_json(), "origin": "enumerated",
+                            "property": ctx.def.id, "part": rp, "signature": f.signature,
+                            "detail": f.detail, "case": rc, "origin": "enumerated",
                         }));
                     }
                 }
